@@ -86,6 +86,10 @@ def check(impl, mstate, born, out, where):
         if c.purpose != M.purpose(cid, mc.purp):
             out.append(('circuit-purpose', 'changed' if mc.purp else 'original',
                         '%s: circuit %d purpose %r, Tor says %r' % (where, cid, c.purpose, M.purpose(cid, mc.purp))))
+        want_kw = dict(t.split('=', 1) for t in M.circ_line(cid, mc.state, mc.hops, purp=mc.purp).split() if '=' in t and not t.startswith('$'))
+        if dict(c.flags) != want_kw:
+            out.append(('circuit-keywords', 'stale' if set(c.flags) - set(want_kw) else 'other',
+                        '%s: circuit %d flags %r, Tor\'s latest report has %r' % (where, cid, dict(c.flags), want_kw)))
         if list(c.build_flags) != M.BUILD_FLAGS[cid].split(','):
             out.append(('circuit-build-flags', 'x', '%s: circuit %d build_flags %r' % (where, cid, c.build_flags)))
         want_flags = {'PURPOSE': M.purpose(cid, mc.purp), 'BUILD_FLAGS': M.BUILD_FLAGS[cid]}
